@@ -35,9 +35,13 @@ func run(c *mon.Ctx) {
 	c.Stream("filter", c.N(20000, 15000000), func(i int, r *gen.Rand) {
 		p := ref.GenPMT(r, -1)
 		pmtPid := 32 + r.Intn(8000)
-		for k := range p.Streams {
-			if p.Streams[k].PID == pmtPid {
-				pmtPid++
+		for again := true; again; {
+			again = false
+			for k := range p.Streams {
+				if p.Streams[k].PID == pmtPid {
+					pmtPid = 32 + (pmtPid+1)%8000 // stream PIDs never equal the PMT PID (assumption above)
+					again = true
+				}
 			}
 		}
 		ptr := 0
